@@ -190,6 +190,15 @@ end
 /-- the visitor's initial table: arguments > closure > globals, all bound to real values -/
 def Tbl.ofNames (names : List (String × Val)) : Tbl := names.map (fun p => (p.1, some p.2))
 
+/-- `Visitor.__init__`: the look-ups (arguments, closure, globals - in this order) are merged name by name,
+"if name not in self._name_to_value": the first look-up that has a name wins -/
+def Tbl.insertIfAbsent (t : Tbl) (n : String) (v : Val) : Tbl :=
+  if (lookupT t n).isSome then t else t ++ [(n, some v)]
+
+def Tbl.addLookup (t : Tbl) (l : List (String × Val)) : Tbl := l.foldl (fun t p => t.insertIfAbsent p.1 p.2) t
+
+def Tbl.ofLookups (ls : List (List (String × Val))) : Tbl := ls.foldl Tbl.addLookup []
+
 /-! ids of all nodes / of the nodes inside comprehensions (Python evaluates those in the comprehension's own scope) -/
 mutual
 def allIds : Expr → List Nat
